@@ -3,4 +3,55 @@
 #![allow(missing_docs, unused_imports, unused, dead_code, unreachable_pub)]
 #![allow(clippy::all, clippy::pedantic)]
 
-// wrappers for the ke property group
+// wrappers for the ke property group (owner: group a7)
+
+use crate::keyset::KeySet;
+use crate::nts::KeyExchangeResult;
+use crate::source::ProtocolVersion;
+
+/// A server cookie decoded with the given key set: (AEAD id, c2s key bytes, s2c key bytes).
+pub fn decode_cookie(keyset: &KeySet, cookie: &[u8]) -> Option<(u16, Vec<u8>, Vec<u8>)> {
+    let d = keyset.decode_cookie(cookie).ok()?;
+    Some((
+        u16::from(d.algorithm),
+        d.c2s.key_bytes().to_vec(),
+        d.s2c.key_bytes().to_vec(),
+    ))
+}
+
+/// What a key-exchange client ended up with, as plain data.
+#[derive(Debug, Clone, PartialEq, Eq)]
+pub struct ResultParts {
+    pub remote: String,
+    pub port: u16,
+    /// 4 = NTPv4, 5 = NTPv5 (final), 45 = v4 upgrading to v5, 54 = upgraded to v5
+    pub version: u8,
+    pub c2s: Vec<u8>,
+    pub s2c: Vec<u8>,
+    /// cookies in the order the stash hands them out
+    pub cookies: Vec<Vec<u8>>,
+}
+
+pub fn result_parts(mut r: KeyExchangeResult) -> ResultParts {
+    let mut cookies = vec![];
+    // bounded: the stash holds at most MAX_COOKIES entries
+    for _ in 0..64 {
+        match r.nts.cookies.get() {
+            Some(c) => cookies.push(c),
+            None => break,
+        }
+    }
+    ResultParts {
+        remote: r.remote.clone(),
+        port: r.port,
+        version: match r.protocol_version {
+            ProtocolVersion::V4 => 4,
+            ProtocolVersion::V5 => 5,
+            ProtocolVersion::V4UpgradingToV5 { .. } => 45,
+            ProtocolVersion::UpgradedToV5 => 54,
+        },
+        c2s: r.nts.c2s.key_bytes().to_vec(),
+        s2c: r.nts.s2c.key_bytes().to_vec(),
+        cookies,
+    }
+}
